@@ -608,7 +608,7 @@ class Array:
             raise ValueError(f"Only integer and floating point types can be combined - not '{type1}' and '{type2}'.")
         # If same type choose the widest
         if type1.name == type2.name:
-            return type1 if type1.length > type2.length else type2
+            return type2 if type2.length > type1.length else type1
         # We choose floats above integers, irrespective of the widths
         if is_float(type1) and is_int(type2):
             return type1
